@@ -69,6 +69,8 @@ func loadSites() {
 			return "harness sync"
 		case -4:
 			return "harness sleep"
+		case -5:
+			return "harness snooze"
 		}
 		if r, ok := siteTab[s]; ok {
 			return fmt.Sprintf("%s:%d (%s in %s)", r.File, r.Line, r.Kind, r.Func)
